@@ -230,6 +230,78 @@ var roleSpecs = []roleSpec{
 	}},
 }
 
+// anchorSigs: the signatures (as printed by sigString) of the remaining unexported functions
+// the rules refer to by name. When one of them is missing, the only function with that
+// signature that is not itself another anchor takes its place (a pure rename, or a rename
+// that is part of a larger edit, must not make the check fail for lack of an anchor).
+// Functions whose signature is shared by many others (generators func(*node), predicates)
+// are resolved through the tables that register them where possible.
+var anchorSigs = map[string]string{
+	"genGlobalVarDecl":         "([]*interp.node,*interp.scope)(*interp.node,error)",
+	"getVarDependencies":       "(*interp.node,*interp.scope)([]*interp.node)",
+	"previousRoot":             "(io/fs.FS,string,string)(string,error)",
+	"getWrapper":               "(*interp.node,reflect.Type)(reflect.Type)",
+	"copyNode":                 "(*interp.node,*interp.node,bool)(*interp.node)",
+	"compDefineX":              "(*interp.scope,*interp.node)(error)",
+	"arrayDeref":               "(*interp.itype)(*interp.itype)",
+	"skipFile":                 "(*go/build.Context,string,bool)(bool)",
+	"getBinValue":              "(func(*interp.itype) reflect.Type,func(*interp.frame) reflect.Value,*interp.frame)(reflect.Value)",
+	"typeDefined":              "(*interp.itype,*interp.itype)(bool)",
+	"typecheck.builtin":        "interp.typecheck.(string,*interp.node,[]*interp.node,bool)(error)",
+	"Interpreter.pkgDir":       "*interp.Interpreter.(string,string,string)(string,string,error)",
+	"Interpreter.parse":        "*interp.Interpreter.(string,string,bool)(go/ast.Node,error)",
+	"Interpreter.initScopePkg": "*interp.Interpreter.(string,string)(*interp.scope)",
+	"Debugger.exec":            "*interp.Debugger.(*interp.node,*interp.frame)(bool)",
+	"itype.methods":            "*interp.itype.()(interp.methodSet)",
+}
+
+// generator anchors registered in the action table: historical name -> action constant
+var anchorActions = map[string]string{"assign": "aAssign", "_range": "aRange", "_return": "aReturn"}
+
+func init() {
+	for name, sig := range anchorSigs {
+		name, sig := name, sig
+		roleSpecs = append(roleSpecs, roleSpec{name, func(ic *IC) *FuncInfo {
+			taken := map[string]bool{}
+			for n := range anchorSigs {
+				taken[n] = true
+			}
+			for _, rs := range roleSpecs {
+				taken[rs.name] = true
+			}
+			return uniqueBy(ic, func(fi *FuncInfo) bool {
+				return sigString(fi.Obj) == sig && !taken[rawFuncName(fi.Decl)]
+			})
+		}})
+	}
+	for name, act := range anchorActions {
+		name, act := name, act
+		roleSpecs = append(roleSpecs, roleSpec{name, func(ic *IC) *FuncInfo {
+			// builtin = [...]bltnGenerator{ aX: f, ... }
+			var out *FuncInfo
+			for _, f := range ic.Pk.Syntax {
+				ast.Inspect(f, func(n ast.Node) bool {
+					kv, ok := n.(*ast.KeyValueExpr)
+					if !ok {
+						return true
+					}
+					k, ok1 := kv.Key.(*ast.Ident)
+					v, ok2 := kv.Value.(*ast.Ident)
+					if ok1 && ok2 && k.Name == act {
+						if fo, ok := ic.Info.Uses[v].(*types.Func); ok {
+							if fi := ic.G.Funcs[fo]; fi != nil {
+								out = fi
+							}
+						}
+					}
+					return true
+				})
+			}
+			return out
+		}})
+	}
+}
+
 // resolveRoles fills the alias table of a freshly loaded interp package.
 func resolveRoles(ic *IC) {
 	m := map[string]string{}
